@@ -57,6 +57,8 @@ def r2(ctx):
         good = "tree_upgrade" in ws.get("~MerkleTreeChangeset.ancestors", "") and ws.get("~MerkleTreeChangeset.ancestors", "").endswith(".ancestors") and "tree_upgrade" in ws.get("~MerkleTreeChangeset.signature", "") and "hash" in ws.get("~MerkleTreeChangeset.hash", "")
         ctx.check(P, rule, "replay: ancestors, hash and signature of the changeset are restored from the entry", good, "changeset.{ancestors,hash,signature} set before the header update", "changeset fields restored: %s" % ws)
         hdr = fa.arg_origin(uh[0], 3)
+        if term_has_call(hdr, OPLOG_OPEN) is None and resolve_mutlocal(fa, hdr) is not None:
+            hdr = resolve_mutlocal(fa, hdr)   # `let OplogOpenOutcome { mut header, .. } = ..`: the variable's initial value
         ctx.check(P, rule, "replay updates the header that the core will keep", "header" in term_str(hdr) and term_has_call(hdr, OPLOG_OPEN) is not None, "update_header_with_changeset(.., &mut outcome.header)", "header argument is %s" % term_str(hdr)[:80])
     # entries iterate in log order
     nx = [s for s in sites(fa, "std::iter::Iterator::next") if "entries" in term_str(fa.arg_origin(s, 0))]
